@@ -39,7 +39,7 @@ def main():
         "hooks": {
             "guard": "MIR_VERIF",
             "enable": "every library build made by ./run passes -DMIR_VERIF (vlib/build.py BASE flags)",
-            "baseline_off_cmd": "cmake -G Ninja -S /repo -B /repo/_build >/dev/null && cmake --build /repo/_build -j16 && ctest --test-dir /repo/_build -j8 --timeout 900",
+            "baseline_off_cmd": "/verif/tools/baseline.sh",
             "source_commits": hooks_commits,
             "add_only": True,
         },
